@@ -4,7 +4,7 @@ GO = "go"          # repository toolchain (1.23.5)
 GO126 = "go1.26.8"  # needed for testing/synctest (virtual clock, owned schedule)
 
 QUEUE_COMMON = {"verif_qcommon_test.go": "harness/shared/queue_common_test.go"}
-VERIFX = {"internal/verifx/errtree.go": "harness/shared/verifx/errtree.go", "internal/verifx/monitor.go": "harness/shared/verifx/monitor.go"}
+VERIFX = {"internal/verifx/errtree.go": "harness/shared/verifx/errtree.go", "internal/verifx/monitor.go": "harness/shared/verifx/monitor.go", "internal/verifx/nexthop.go": "harness/shared/verifx/nexthop.go"}
 
 CHECKS = {
     "C17": {
@@ -317,7 +317,28 @@ CHECKS["C11"] = {
     "assumptions": ["toolchain go1.26.8 (newer than the repository's 1.23.5) is used to get testing/synctest"],
 }
 
+CHECKS["C09"] = {
+    "title": "per-recipient results name exactly the accepted recipients",
+    "go": GO,
+    "units": [
+        {"name": "remote", "pkg": "internal/target/remote", "run": "^TestVerifC09",
+         "overlay": {"verif_c09_test.go": "harness/C09/remote_test.go"}, "overlay_abs": VERIFX},
+        {"name": "lmtp", "pkg": "internal/target/smtp", "run": "^TestVerifC09",
+         "overlay": {"verif_c09_test.go": "harness/C09/lmtp_test.go"}, "overlay_abs": VERIFX,
+         "quick": {"shards": 8}, "thorough": {"shards": 8}},
+        {"name": "pipeline", "pkg": "internal/msgpipeline", "run": "^TestVerifC09",
+         "overlay": {"verif_c09_test.go": "harness/C09/pipeline_test.go", "verif_common_test.go": "harness/shared/msgpipeline_common_test.go"},
+         "quick": {"shards": 2}, "thorough": {"shards": 4}},
+    ],
+    "quick": {"n": 3200, "shards": 16},
+    "thorough": {"n": 128000, "shards": 16},
+    "level_text": "randomised search (rapid) over recipient lists, next-hop capability sets, scripted next-hop failures and histories of transactions over one cached connection, "
+                  "run against the real outbound targets talking to a scripted go-smtp server on loopback; oracle = multiset equality between reported result keys and accepted addresses.",
+    "level_note": "the scripted next hop is a go-smtp server (same library as maddy's client); runs on real loopback sockets",
+    "technique": "property-based testing (rapid) of transaction histories with a multiset-equality oracle",
+}
+
 # properties deliberately not claimed: {"property_id":..., "reason":...}
 NOT_APPLICABLE = []
 
-FIX_COMMITS = ["b0fbfbf", "ce16772", "79536cb", "9da7ceb", "ba9a898", "cd17c24", "0f579ef", "cfad1cd", "1450983", "0eb6137", "4ba5ca6", "2f36527", "b732485", "0e0d97d", "b946db5", "3bc2b0d", "7489d42", "0cccb75", "c472f5d", "674085b", "73fcd7e", "697926b", "0e63ec2", "16c771f", "5bb0b0a"]
+FIX_COMMITS = ["b0fbfbf", "ce16772", "79536cb", "9da7ceb", "ba9a898", "cd17c24", "0f579ef", "cfad1cd", "1450983", "0eb6137", "4ba5ca6", "2f36527", "b732485", "0e0d97d", "b946db5", "3bc2b0d", "7489d42", "0cccb75", "c472f5d", "674085b", "73fcd7e", "697926b", "0e63ec2", "16c771f", "5bb0b0a", "7be8843", "debd9c3"]
